@@ -19,7 +19,7 @@ CHECKS = {
           "Each generated primitive call and each generated round is executed on all six engines and compared bit for bit on exactly what the Engine contract defines; guard shards and trailing blocks prove confinement. Exploration over (pos, size up to 65536, truncated, aligned and unaligned skew, log_m, blocks, structured and random content, arbitrary eval_poly element values, buffer address alignment).",
           "DESIGN.md 4 C03", "seven emulated Neon intrinsics (rsv-neon/src/neon_emu.rs)"),
  "C04": C("property-based metamorphic testing: big-shard coding vs per-slot 2-byte coding through the documented byte placement",
-          "For generated sizes covering every tail length, outputs must have exactly the shard size and every (or sampled) slot must equal the result of coding that slot alone as 2-byte shards, for encode and decode, half of the cases with poisoned padding lanes; one case in five with hundreds to thousands of shards of up to 2 KiB. Exploration.",
+          "For generated sizes covering every tail length, outputs must have exactly the shard size and every (or sampled) slot must equal the result of coding that slot alone as 2-byte shards, for encode and decode, half of the cases on a reused object with poisoned padding lanes (a third of those reset from the same counts and block count with another tail length); one case in five with hundreds to thousands of shards of up to 2 KiB. Exploration.",
           "DESIGN.md 4 C04"),
  "C05": C("model-based / stateful property testing: generated call histories (incl. related configurations, long-lived objects, big working spaces), differential against a freshly constructed object, adversarial stale memory via poison hook; libFuzzer (ASan) in thorough",
           "Generated histories (resets across counts, sizes and rates, abandoned rounds, failing calls, work recycling across families and engines) on one object; at every encode/decode the same calls are replayed on a fresh object and all results must be identical; with the poison hook every retained byte of working memory is noise, which realises the property's 'all possible stale contents'. Histories include related configurations (same, permuted, neighbouring, retried after a failure, returned to); part reset_streaks takes one object through streaks of up to 300 consecutive resets / recycles / failing calls; part big_history repeats the oracle on working spaces up to 256 MiB / 2 GiB, part long_life on objects that live through up to ~140 000 rounds. Exploration of the history space.",
